@@ -30,10 +30,11 @@ ASSUMPTIONS = [
     "structures are compared through their canonical JSON dump",
 ]
 MIN_NONTRIVIAL_FRACTION = 0.15
+RULE += " Added after the seeded rounds: " + 'Also generated: values of the wrong JSON type for their field (bool for str, number for bool, ...; an enumerated single-field table as well), compact separators, numeric strings with thousands separators, and earlier folds (valid and invalid) on the same validator.'
 
 TYPES = ["int", "float", "str", "bool", "list_int", "list_str", "opt_int", "opt_str", "nested"]
 STRS = ["plain", "None of the above", "True story", "it's", 'a "quoted" word', "{brace}", "[1,2]", "x,}", "key: 'v'", "```", "NaN", "undefined", "",
-        "False alarm", "a, b", "line\nbreak", "é☃", ": undefined", "{\"k\": 1}"]
+        "False alarm", "a, b", "line\nbreak", "é☃", ": undefined", "{\"k\": 1}", "1,234 items", "nil", "x,y", "9,999"]
 WRAPS = ["fence_json", "fence", "xml", "prose_pre", "prose_post", "decoy_empty", "decoy_second", "concat"]
 _str = st.one_of(st.sampled_from(STRS), st.text(max_size=6))
 
@@ -48,7 +49,7 @@ def _value(t):
     if t == "bool":
         return st.booleans()
     if t == "list_int":
-        return st.lists(st.integers(0, 9), max_size=3)
+        return st.lists(st.one_of(st.integers(0, 9), st.sampled_from([100, 200, 1234])), max_size=3)
     if t == "list_str":
         return st.lists(_str, max_size=3)
     if t == "opt_int":
@@ -83,7 +84,8 @@ def _case(draw):
         else:
             sem.append(["mistype", draw(st.sampled_from(names)), draw(st.sampled_from([True, False, None, 1.5, 0, 1, "", "7", [1], {"k": 1}, "true", "yes"]))])
     style = {"kq": draw(st.sampled_from(['"', '"', '"', "'", ""])), "vq": draw(st.sampled_from(['"', '"', "'"])),
-             "tc": draw(st.sampled_from([False, False, True])), "lit": draw(st.sampled_from(["json", "json", "py", "js-undefined"]))}
+             "tc": draw(st.sampled_from([False, False, True])), "lit": draw(st.sampled_from(["json", "json", "py", "js-undefined"])),
+             "compact": draw(st.sampled_from([False, False, True]))}
     wrap = draw(st.lists(st.sampled_from(WRAPS), max_size=3))
     trunc = draw(st.sampled_from([None] * 9 + [3, 10, 25]))
     pre = None
